@@ -35,6 +35,30 @@ inductive Setter where
 /-- `usize::is_power_of_two` -/
 def isPow2 (n : Nat) : Bool := n != 0 && (n &&& (n - 1)) == 0
 
+/-- the constants `ConfigBuilder::new` starts from (config/mod.rs:25-43). They are tuning knobs, not part of any
+    property: the correspondence reads them from the running crate and only requires them to be acceptable themselves -/
+structure Defaults where
+  pool : Nat
+  buf : Nat
+  cmd : Nat
+  shards : Nat
+  tickNs : Nat
+  deriving DecidableEq, Repr, Inhabited
+
+/-- the values of the pinned tree -/
+def Defaults.crate : Defaults := { pool := 32, buf := 64, cmd := 32 * 1024, shards := 256, tickNs := 5 * nsPerSec }
+
+/-- defaults the setters themselves would accept -/
+def Defaults.ok (d : Defaults) : Bool :=
+  decide (d.pool > 0) && decide (d.buf > 0) && decide (d.cmd > 0) && decide (d.shards > 1) && isPow2 d.shards
+
+/-- `ConfigBuilder::new` starting from the defaults `d` -/
+def Builder.newWith (d : Defaults) (counters capacity : Nat) (w : Int) : Option Builder :=
+  if counters > 0 ∧ capacity > 0 ∧ w > 0 then
+    some { counters := counters, capacity := capacity, cacheWeight := w, pool := d.pool, buf := d.buf, cmd := d.cmd,
+           shards := d.shards, tickNs := d.tickNs }
+  else none
+
 /-- `ConfigBuilder::new` with the defaults of config/mod.rs:25-43 -/
 def Builder.new (counters capacity : Nat) (w : Int) : Option Builder :=
   if counters > 0 ∧ capacity > 0 ∧ w > 0 then
